@@ -43,6 +43,10 @@ def predicate(name, r):
     trace = flatten(r.get("trace") or [])
     ks = edit_kinds(trace)
     ops = step_ops(trace)
+    if name == "duplicate_delivery":
+        # a copy of a request that is delivered late (message-level engine: "held") or while the
+        # original is still in flight (step-level engine: net "dup")
+        return "held" in ops or any(st.get("net") == "dup" for st in trace)
     if name == "c19_merge_by_later_author":
         x = cfg.get("extra") or {}
         return bool(x.get("repair_merge")) and bool(x.get("swap"))
